@@ -11,6 +11,7 @@ def main():
     crate = a.pop(0)
     timeout, workers, mem, us, keep, extra = 600, 8, 20, [], False, []
     kflags = []
+    xp = []
     filters = []
     while a:
         x = a.pop(0)
@@ -23,6 +24,7 @@ def main():
         elif x == "--fast": extra += ["--no-bounds-check", "--no-pointer-check"]
         elif x == "--cbmc": extra.append(a.pop(0))
         elif x == "--nr": kflags.append("--no-assertion-reach-checks")
+        elif x == "--xp": xp.append(a.pop(0))
         else: filters.append(x)
     td = tempfile.mkdtemp(prefix="vk-try-")
     try:
@@ -31,13 +33,13 @@ def main():
             print(out[-6000:]); print("BUILD FAILED"); return 2
         print("built %d harnesses in %.0fs" % (len(hs), bt))
         wd = os.path.join(td, "work"); os.makedirs(wd)
-        jobs = [(K.run_harness, (h, wd), dict(timeout=timeout, mem_gb=mem, unwindset=us, extra_cbmc=extra)) for h in hs]
+        jobs = [(K.run_harness, (h, wd), dict(timeout=timeout, mem_gb=mem, unwindset=us, extra_cbmc=extra, expected_panics=xp)) for h in hs]
         t0 = time.time()
         rs = K.run_many(jobs, workers)
-        for r in sorted(rs, key=lambda r: r.get("harness", "")):
+        for r in sorted(rs, key=lambda r: r.get("harness_pretty", "")):
             st = r.get("stats", {})
             print("%-60s %-12s wall=%6.1fs rss=%sMB steps=%s vccs=%s solver=%.1fs covers=%s unreach=%s %s" % (
-                r.get("harness", "?").split("::")[-1], r["verdict"], r.get("wall_s", 0), r.get("peak_rss_mb"),
+                r.get("harness_pretty", "?").split("::")[-1], r["verdict"], r.get("wall_s", 0), r.get("peak_rss_mb"),
                 st.get("program_steps"), st.get("vccs_remaining"), st.get("solver_s", 0),
                 "".join("S" if c["satisfied"] else "u" for c in r.get("covers", [])),
                 r.get("harness_asserts_unreachable"), r.get("reason", "")))
